@@ -72,6 +72,7 @@ type S struct {
 	stallP    int
 	stallLen  int
 	Aborted   string
+	AbortDesc string // where every task was parked when the run was abandoned
 	Draining  bool
 	Leaked    int
 	hash      core.Hasher
@@ -323,7 +324,8 @@ func (s *S) setAborted(why string) {
 				s.Leaked++
 			}
 		}
-		s.log.Event("abort " + why + " " + s.Describe())
+		s.AbortDesc = s.Describe()
+		s.log.Event("abort " + why + " " + s.AbortDesc)
 	}
 }
 
